@@ -268,4 +268,12 @@ def run(db, tier):
             timed = [c for c in gs if any(x[0] == "field" and x[2] == "time" for x in c["a"]) and any(x[0] == "field" and x[2] == "time" for x in c["b"])]
             rep.check(bool(timed), "R-RECOG-TIME", "%s|accept-%d" % (fid, k), "%s:%d" % (g.file, g.blocks[ab]["t"]["ln"]),
                       "accept is guarded by a comparison of the instructions' times", "instructions can be merged here without their times having been compared")
+    # ---------------- R-GUARD-REL (shared with C01): presence of a time comparison is not enough - the relation itself
+    # (times EQUAL before instructions are folded into one statement) must still be implied by the current guards
+    from rules import guardrel
+    rep.rule("R-GUARD-REL", "each relation required on the reviewed tree before instructions are folded into one statement (diff switch, two-part "
+                            "intrinsic, register call) - in particular equality of their times - is still implied by a current guard with the "
+                            "same operands: a one-sided or inverted comparison lets instructions with different times merge, and the label is lost")
+    n_gr = guardrel.check(db, rep, ["recognize_diff_switch|fold", "recognize_double_instr_intrinsic|fold", "recognize_reg_call|fold"])
+    rep.floor("frozen guard relations (recognisers)", n_gr, 5)
     return rep
